@@ -1,10 +1,739 @@
 package rules
 
 import (
+	"fmt"
+	"go/token"
+	"go/types"
+	"sort"
+	"strings"
+
+	"golang.org/x/tools/go/ssa"
+
 	"wharfverif/checker/internal/core"
 )
 
-// ruleOrderedFanIn is R15.3 (filled in with the C15 rules).
+func init() {
+	register(&Property{
+		ID: "C15",
+		Explanation: `R15.1 fork-site access sets: at the fork sites of the differ (WritePatch's taskgroup.Do, taskgroup.Do's own goroutines, bsdiff.Do's workers/dispatcher/collector with the parent's concurrent writeMessages, NewPSA's sorters) no two concurrent units (or two instances of one unit, or a unit and the parent between fork and join) access overlapping locations with a write and disjoint locksets; ` +
+			`R15.2 no range over a map with an order-sensitive body in functions reachable from the diff/optimize entry points (allowed: commutative accumulation, stores into maps, delete, collect-then-sort); ` +
+			`R15.3 ordered fan-in: the channel consumed by writeMessages has exactly one (single-instance) sender, workers send only on their own channel, the collector hands the token back and the dispatcher takes it before handing out work; ` +
+			`R15.4 ambient values (time, CPU count, GOMAXPROCS, random, pid, memory statistics) reach only statistics fields and diagnostics, never comparisons, data or parameters. ` +
+			`NOT decided: byte-identical output as such, races on slice elements (partitioned sub-slices), races inside dependencies, short reads of the source pool.`,
+		Assumptions: []string{
+			"slice element accesses are not tracked (partitioned sub-slices such as I[st:en] cannot be proved disjoint statically)",
+			"state.Consumer callbacks and other external callbacks are assumed internally synchronised",
+			"objects are identified by the SSA value that creates them; two distinct variables alias only if one was assigned from the other",
+		},
+		Run:        runC15,
+		Fixtures:   fixturesC15,
+		FixturePkg: "forkfx",
+	})
+	register(&Property{
+		ID: "C19",
+		Explanation: `R19.1 fork-site access sets in ExtractZip: the worker goroutines (started in a loop, hence concurrent with each other) and the parent between fork and join share no location with a write and disjoint locksets (entry counters, progress, warned flag); ` +
+			`R19.2 the resume file (a pseudo-variable for the path in settings.ResumeFrom) is written by the workers only under a common lock, i.e. it has one ordered writer; ` +
+			`R19.3 every worker sends exactly one result on every path and the parent collects them. ` +
+			`NOT decided: tree equality, tar, symlink/dir recreation, and whether the marker value is a contiguous high-water mark (value-level; a lock is necessary, not sufficient).`,
+		Assumptions: []string{
+			"state.Consumer and the OnEntryDone / OnUncompressedSizeKnown callbacks are assumed internally synchronised",
+			"slice element accesses are not tracked",
+		},
+		Run:        runC19,
+		Fixtures:   fixturesC15,
+		FixturePkg: "forkfx",
+	})
+}
+
+func reportForkSite(c *core.Ctx, rule string, parent *ssa.Function, minUnits int) *forkSite {
+	depth := 4
+	if c.Tier == "thorough" {
+		depth = 8
+	}
+	s, unknown := analyseForkSite(c.P, parent, depth)
+	c.Stats[rule+".unresolved_dynamic_calls."+parent.Name()] = unknown
+	nAcc := len(s.region)
+	for _, u := range s.units {
+		nAcc += len(u.accesses)
+	}
+	var names []string
+	for _, u := range s.units {
+		m := ""
+		if u.multi {
+			m = " (multi-instance)"
+		}
+		names = append(names, u.name+m)
+	}
+	o := c.Check(len(s.units) >= minUnits, rule, s.name, "fork site units", parent.Pos(),
+		fmt.Sprintf("%d units: %s; %d shared accesses summarised", len(s.units), strings.Join(names, "; "), nAcc),
+		fmt.Sprintf("expected at least %d concurrent units at this fork site, found %d", minUnits, len(s.units)))
+	o.Sites = nAcc + 1
+	cs := findConflicts(s)
+	// group by location
+	byLoc := map[string][]conflict{}
+	for _, k := range cs {
+		byLoc[k.a.loc.String()] = append(byLoc[k.a.loc.String()], k)
+	}
+	var locs []string
+	for l := range byLoc {
+		locs = append(locs, l)
+	}
+	sort.Strings(locs)
+	for _, l := range locs {
+		k := byLoc[l][0]
+		rw := func(a access) string {
+			if a.write {
+				return "write"
+			}
+			return "read"
+		}
+		o := c.Bad(rule, s.name, "unsynchronised concurrent access to "+l, k.a.pos,
+			fmt.Sprintf("%s (%s, %s in %s at %s) and %s (%s, %s in %s at %s) run concurrently, at least one writes, and they hold no common lock",
+				k.ua, rw(k.a), k.a.what, core.FnName(k.a.fn), c.P.Pos(k.a.pos), k.ub, rw(k.b), k.b.what, core.FnName(k.b.fn), c.P.Pos(k.b.pos)))
+		o.Sites = len(byLoc[l])
+	}
+	if len(cs) == 0 {
+		c.Ok(rule, s.name, "no conflicting accesses between concurrent units", parent.Pos(), fmt.Sprintf("%d accesses compared pairwise", nAcc)).Sites = nAcc + 1
+	}
+	return s
+}
+
+func runC15(c *core.Ctx) {
+	c.Rule("R15.1", "fork-site conflicts")
+	c.Rule("R15.2", "map order does not reach the output")
+	c.Rule("R15.3", "ordered fan-in")
+	c.Rule("R15.4", "no ambient nondeterminism on the data path")
+	sites := []struct {
+		pkg, fn string
+		min     int
+	}{{"pwr", "DiffContext.WritePatch", 3}, {"taskgroup", "Do", 1}, {"bsdiff", "DiffContext.Do", 3}, {"bsdiff", "NewPSA", 1}}
+	nUnits := 0
+	var bsdiffSite *forkSite
+	for _, st := range sites {
+		fn := c.P.Fn(st.pkg, st.fn)
+		if fn == nil {
+			c.Missing("R15.1", st.pkg+"."+st.fn, "fork site not found")
+			continue
+		}
+		s := reportForkSite(c, "R15.1", fn, st.min)
+		nUnits += len(s.units)
+		if st.fn == "DiffContext.Do" {
+			bsdiffSite = s
+		}
+	}
+	c.Floor("R15.1", "concurrent units", nUnits, 8)
+	orderedFanInSite(c, "R15.3", bsdiffSite)
+
+	// reachable set
+	roots := []*ssa.Function{c.P.Fn("pwr", "DiffContext.WritePatch"), c.P.Fn("pwr/rediff", "NewContext"), c.P.Fn("pwr/rediff", "context.Optimize"), c.P.Fn("bsdiff", "DiffContext.Do")}
+	reach := reachableModuleFuncs(c.P, roots)
+	c.Stats["R15.reachable_functions"] = len(reach)
+	ruleMapOrder(c, "R15.2", reach, 1)
+	ruleAmbient(c, "R15.4", reach, 2)
+}
+
 func ruleOrderedFanIn(c *core.Ctx, rule string) {
-	orderedFanIn(c, rule)
+	fn := c.P.Fn("bsdiff", "DiffContext.Do")
+	if fn == nil {
+		c.Missing(rule, "bsdiff.(*DiffContext).Do", "not found")
+		return
+	}
+	s, _ := analyseForkSite(c.P, fn, 2)
+	orderedFanInSite(c, rule, s)
+}
+
+func reachableModuleFuncs(p *core.Prog, roots []*ssa.Function) map[*ssa.Function]bool {
+	g := p.CallGraph(false)
+	reach := map[*ssa.Function]bool{}
+	var walk func(f *ssa.Function)
+	walk = func(f *ssa.Function) {
+		if f == nil || reach[f] || !core.InModule(f) || f.Blocks == nil {
+			return
+		}
+		reach[f] = true
+		for _, a := range f.AnonFuncs {
+			walk(a)
+		}
+		if n := g.Nodes[f]; n != nil {
+			for _, e := range n.Out {
+				if e.Callee != nil {
+					// interface dispatch fan-out: keep module callees only
+					walk(e.Callee.Func)
+				}
+			}
+		}
+	}
+	for _, r := range roots {
+		walk(r)
+	}
+	return reach
+}
+
+func orderedFanInSite(c *core.Ctx, rule string, s *forkSite) {
+	if s == nil {
+		c.Missing(rule, "bsdiff.(*DiffContext).Do", "fork site not analysed")
+		return
+	}
+	do := s.parent
+	wm := c.P.Fn("bsdiff", "DiffContext.writeMessages")
+	var wmCall *ssa.Call
+	core.Instrs(do, func(in ssa.Instruction) {
+		if cl, ok := in.(*ssa.Call); ok && cl.Call.StaticCallee() == wm && wm != nil {
+			wmCall = cl
+		}
+	})
+	if wmCall == nil {
+		c.Bad(rule, core.FnName(do), "writeMessages call", do.Pos(), "Do no longer hands the matches to writeMessages")
+		return
+	}
+	var matches ssa.Value
+	for _, a := range wmCall.Call.Args {
+		if _, ok := a.Type().Underlying().(*types.Chan); ok {
+			matches = a
+		}
+	}
+	sendsOn := func(f *ssa.Function, pred func(ssa.Value) bool) int {
+		n := 0
+		for _, ff := range core.WithAnons(f) {
+			core.Instrs(ff, func(in ssa.Instruction) {
+				if sd, ok := in.(*ssa.Send); ok && pred(sd.Chan) {
+					n++
+				}
+			})
+		}
+		return n
+	}
+	var senders []*forkUnit
+	for _, u := range s.units {
+		if u.fn != nil && sendsOn(u.fn, func(v ssa.Value) bool { return sameChan(v, matches) }) > 0 {
+			senders = append(senders, u)
+		}
+	}
+	c.Check(len(senders) == 1 && !senders[0].multi, rule, core.FnName(do), "the channel consumed by writeMessages has exactly one single-instance sender", core.InstrPos(wmCall),
+		"one collector goroutine sends the matches", fmt.Sprintf("%d goroutines (or a multi-instance one) send on the channel writeMessages consumes: matches reach the writer in scheduling order", len(senders)))
+	// workers send only on their own channel parameter
+	for _, lit := range do.AnonFuncs {
+		var chParam *ssa.Parameter
+		for _, p := range lit.Params {
+			if _, ok := p.Type().Underlying().(*types.Chan); ok {
+				chParam = p
+			}
+		}
+		if chParam == nil {
+			continue
+		}
+		other := sendsOn(lit, func(v ssa.Value) bool { return !sameChan(v, chParam) })
+		own := sendsOn(lit, func(v ssa.Value) bool { return sameChan(v, chParam) })
+		c.Check(own > 0 && other == 0, rule, core.FnName(lit), "block analysis sends only on the channel it was given", lit.Pos(),
+			fmt.Sprintf("%d sends, all on its channel parameter", own), "the block analysis sends on a channel other than the per-worker channel it was given: matches bypass the ordered collector")
+	}
+	if len(senders) == 1 {
+		col := senders[0].fn
+		isField := func(name string) func(ssa.Value) bool {
+			return func(v ssa.Value) bool { _, n, ok := core.FieldOf(v); return ok && n == name }
+		}
+		var recvMatches, sendConsumed ssa.Instruction
+		core.Instrs(col, func(in ssa.Instruction) {
+			if u, ok := in.(*ssa.UnOp); ok && u.Op == token.ARROW && isField("matches")(u.X) {
+				recvMatches = in
+			}
+			if sd, ok := in.(*ssa.Send); ok && isField("consumed")(sd.Chan) {
+				sendConsumed = in
+			}
+		})
+		okTok := recvMatches != nil && sendConsumed != nil && core.FindPath(col, recvMatches, isInstr(sendConsumed), nil) != nil
+		c.Check(okTok, rule, core.FnName(col), "collector drains one worker's block, then hands the token back", col.Pos(),
+			"receive on state.matches followed by a send on state.consumed", "the collector does not return the per-worker token after draining a block: the dispatcher can reuse a worker whose previous block is still being collected (or never continues)")
+	}
+	// dispatcher: takes the token before handing out work
+	okDisp := false
+	for _, u := range s.units {
+		if u.fn == nil {
+			continue
+		}
+		var recvTok, sendWork ssa.Instruction
+		core.Instrs(u.fn, func(in ssa.Instruction) {
+			if x, ok := in.(*ssa.UnOp); ok && x.Op == token.ARROW {
+				if _, n, ok := core.FieldOf(x.X); ok && n == "consumed" {
+					recvTok = in
+				}
+			}
+			if sd, ok := in.(*ssa.Send); ok {
+				if _, n, ok := core.FieldOf(sd.Chan); ok && n == "work" {
+					sendWork = in
+				}
+			}
+		})
+		if recvTok != nil && sendWork != nil && core.FindPath(u.fn, nil, isInstr(sendWork), isInstr(recvTok)) == nil {
+			okDisp = true
+		}
+	}
+	c.Check(okDisp, rule, core.FnName(do), "dispatcher takes the worker's token before giving it work", do.Pos(),
+		"<-consumed precedes work <- i", "work is handed to a worker without first taking its 'consumed' token: a worker's channel can carry matches of two blocks interleaved")
+}
+
+// ---- R15.2 map order --------------------------------------------------------------------------
+
+func ruleMapOrder(c *core.Ctx, rule string, reach map[*ssa.Function]bool, min int) {
+	n := 0
+	var fns []*ssa.Function
+	for f := range reach {
+		fns = append(fns, f)
+	}
+	sort.Slice(fns, func(i, j int) bool { return core.FnName(fns[i]) < core.FnName(fns[j]) })
+	for _, fn := range fns {
+		core.Instrs(fn, func(in ssa.Instruction) {
+			rg, ok := in.(*ssa.Range)
+			if !ok {
+				return
+			}
+			if _, isMap := rg.X.Type().Underlying().(*types.Map); !isMap {
+				return
+			}
+			n++
+			problems := mapRangeProblems(fn, rg)
+			c.Check(len(problems) == 0, rule, core.FnName(fn), "range over map "+core.Describe(rg.X), core.InstrPos(in),
+				"the loop body is order-insensitive (commutative accumulation, map stores, delete, collect-then-sort)",
+				"the body of this range over a map depends on iteration order ("+strings.Join(problems, "; ")+") in a function reachable from the diff/optimize entry points: the same input can produce different patches from run to run")
+		})
+	}
+	c.Floor(rule, "ranges over maps in reachable functions", n, min)
+}
+
+// mapRangeProblems lists order-sensitive constructs in the body of a range-over-map loop.
+func mapRangeProblems(fn *ssa.Function, rg *ssa.Range) []string {
+	// loop blocks: blocks on a cycle through the block holding the Next instruction
+	var next *ssa.Next
+	if refs := rg.Referrers(); refs != nil {
+		for _, r := range *refs {
+			if nx, ok := r.(*ssa.Next); ok {
+				next = nx
+			}
+		}
+	}
+	if next == nil {
+		return nil
+	}
+	hdr := next.Block()
+	// natural loop of the back edges into the header
+	inLoop := map[*ssa.BasicBlock]bool{hdr: true}
+	var stack []*ssa.BasicBlock
+	for _, t := range hdr.Preds {
+		if hdr.Dominates(t) {
+			stack = append(stack, t)
+		}
+	}
+	for len(stack) > 0 {
+		b := stack[len(stack)-1]
+		stack = stack[:len(stack)-1]
+		if inLoop[b] {
+			continue
+		}
+		inLoop[b] = true
+		for _, q := range b.Preds {
+			if !inLoop[q] {
+				stack = append(stack, q)
+			}
+		}
+	}
+	var problems []string
+	add := func(s string) { problems = append(problems, s) }
+	sortedLater := func(cell ssa.Value) bool {
+		// the collected slice is handed to a sort function after the loop
+		found := false
+		core.Instrs(fn, func(in ssa.Instruction) {
+			cl, ok := in.(*ssa.Call)
+			if !ok || inLoop[in.Block()] {
+				return
+			}
+			n := core.CalleeName(cl)
+			if strings.HasPrefix(n, "sort.") || strings.HasPrefix(n, "slices.Sort") {
+				if len(cl.Call.Args) > 0 {
+					a := core.StripConv(cl.Call.Args[0])
+					if ld, ok := a.(*ssa.UnOp); ok && ld.Op == token.MUL && core.CellRoot(ld.X) == cell {
+						found = true
+					}
+					for _, o := range core.Origins(a) {
+						if o == cell {
+							found = true
+						}
+					}
+				}
+			}
+		})
+		return found
+	}
+	for b := range inLoop {
+		for _, in := range b.Instrs {
+			switch x := in.(type) {
+			case *ssa.Phi:
+				if b != hdr {
+					continue
+				}
+				// loop-carried value: fine if numeric accumulation (+, |, max-free) or a collect-then-sort slice
+				carried := false
+				for i, e := range x.Edges {
+					if inLoop[b.Preds[i]] && e != ssa.Value(x) {
+						carried = true
+					}
+				}
+				if !carried {
+					continue
+				}
+				switch x.Type().Underlying().(type) {
+				case *types.Basic:
+					bt := x.Type().Underlying().(*types.Basic)
+					if bt.Info()&(types.IsInteger|types.IsFloat) != 0 {
+						okAcc := true
+						for i, e := range x.Edges {
+							if !inLoop[b.Preds[i]] {
+								continue
+							}
+							for _, o := range core.Origins(e) {
+								if o == ssa.Value(x) {
+									continue
+								}
+								bo, ok := o.(*ssa.BinOp)
+								if !ok || (bo.Op != token.ADD && bo.Op != token.OR && bo.Op != token.XOR && bo.Op != token.MUL) {
+									okAcc = false
+								}
+							}
+						}
+						if !okAcc {
+							add("variable " + x.Comment + " is updated non-commutatively (selection, not accumulation)")
+						}
+					} else if bt.Info()&types.IsString != 0 {
+						add("string " + x.Comment + " is built in iteration order")
+					}
+				case *types.Slice:
+					if !sortedLater(x) {
+						// phi slices: look for a sort call on any value derived from the phi after the loop
+						found := false
+						core.Instrs(fn, func(y ssa.Instruction) {
+							if cl, ok := y.(*ssa.Call); ok && !inLoop[y.Block()] && (strings.HasPrefix(core.CalleeName(cl), "sort.") || strings.HasPrefix(core.CalleeName(cl), "slices.Sort")) && len(cl.Call.Args) > 0 {
+								for _, o := range core.Origins(cl.Call.Args[0]) {
+									if o == ssa.Value(x) {
+										found = true
+									}
+								}
+								if core.StripConv(cl.Call.Args[0]) == ssa.Value(x) {
+									found = true
+								}
+							}
+						})
+						if !found {
+							add("slice " + x.Comment + " is appended to in iteration order and not sorted afterwards")
+						}
+					}
+				default:
+					add("variable " + x.Comment + " (" + types.TypeString(x.Type(), nil) + ") is selected depending on iteration order")
+				}
+			case *ssa.Store:
+				if _, isIdx := x.Addr.(*ssa.IndexAddr); isIdx {
+					continue
+				}
+				root := core.CellRoot(x.Addr)
+				if a, ok := root.(*ssa.Alloc); ok {
+					if a.Comment == "varargs" || a.Comment == "complit" || a.Comment == "" {
+						continue
+					}
+					if _, isFA := x.Addr.(*ssa.FieldAddr); !isFA {
+						// a local cell: collect-then-sort, or numeric accumulation
+						if _, isSl := a.Type().Underlying().(*types.Pointer).Elem().Underlying().(*types.Slice); isSl && sortedLater(a) {
+							continue
+						}
+						if bt, ok := a.Type().Underlying().(*types.Pointer).Elem().Underlying().(*types.Basic); ok && bt.Info()&(types.IsInteger|types.IsFloat) != 0 {
+							if bo, ok := x.Val.(*ssa.BinOp); ok && (bo.Op == token.ADD || bo.Op == token.OR) {
+								continue
+							}
+						}
+						// per-iteration locals declared inside the loop are fine
+						if inLoop[a.Block()] {
+							continue
+						}
+						add("variable " + a.Comment + " is assigned inside the loop")
+						continue
+					}
+				}
+				add("store to " + core.Describe(x.Addr) + " inside the loop")
+			case *ssa.Send:
+				add("channel send inside the loop")
+			case *ssa.Call:
+				if b, ok := x.Call.Value.(*ssa.Builtin); ok {
+					_ = b
+					continue
+				}
+				n := core.CalleeName(x)
+				if strings.HasPrefix(n, "fmt.Sprint") || strings.HasPrefix(n, "strings.") || strings.HasPrefix(n, "strconv.") || strings.HasPrefix(n, "path") || n == "pwr.ComputeBlockSize" || n == "pwr.ComputeNumBlocks" {
+					continue
+				}
+				add("call of " + n + " inside the loop")
+			}
+		}
+	}
+	sort.Strings(problems)
+	return dedup(problems)
+}
+
+// ---- R15.4 ambient values --------------------------------------------------------------------------
+
+var ambientSources = map[string]bool{"time.Now": true, "time.Since": true, "runtime.NumCPU": true, "runtime.GOMAXPROCS": true, "os.Getpid": true, "runtime.NumGoroutine": true,
+	"os.Hostname": true, "time.Until": true}
+
+func isAmbientCall(cl *ssa.Call) bool {
+	n := core.CalleeName(cl)
+	return ambientSources[n] || strings.HasPrefix(n, "math/rand.") || strings.HasPrefix(n, "math/rand/v2.") || strings.HasPrefix(n, "crypto/rand.")
+}
+
+func isLoggingCall(n string) bool {
+	switch {
+	case strings.HasPrefix(n, "fmt.Fprint"), strings.HasPrefix(n, "fmt.Print"), strings.HasPrefix(n, "log."):
+		return true
+	case strings.Contains(n, "headway/state.Consumer)."):
+		return true
+	case strings.HasSuffix(n, "savior.Debugf"):
+		return true
+	}
+	return false
+}
+
+func ruleAmbient(c *core.Ctx, rule string, reach map[*ssa.Function]bool, min int) {
+	n := 0
+	var fns []*ssa.Function
+	for f := range reach {
+		fns = append(fns, f)
+	}
+	sort.Slice(fns, func(i, j int) bool { return core.FnName(fns[i]) < core.FnName(fns[j]) })
+	for _, fn := range fns {
+		core.Instrs(fn, func(in ssa.Instruction) {
+			cl, ok := in.(*ssa.Call)
+			if !ok {
+				return
+			}
+			var src ssa.Value
+			what := core.CalleeName(cl)
+			if isAmbientCall(cl) {
+				src = cl
+			} else if what == "runtime.ReadMemStats" {
+				// the filled struct is the source
+				for _, o := range core.Origins(cl.Call.Args[0]) {
+					src = o
+				}
+			}
+			if src == nil {
+				return
+			}
+			n++
+			bad := ambientEscapes(src)
+			c.Check(len(bad) == 0, rule, core.FnName(fn), "ambient value "+what+"() reaches only statistics and diagnostics", core.InstrPos(in),
+				"all uses end in a *Stats field, a duration computation or a logging call",
+				"the result of "+what+"() is used as "+strings.Join(bad, "; ")+": output can depend on the machine, the clock or the scheduler settings")
+		})
+	}
+	c.Floor(rule, "ambient calls in reachable functions", n, min)
+}
+
+// ambientEscapes follows an ambient value forward and returns the uses that are
+// not statistics or diagnostics.
+func ambientEscapes(src ssa.Value) []string {
+	var bad []string
+	seen := map[ssa.Value]bool{}
+	var follow func(v ssa.Value, d int)
+	useOf := func(in ssa.Instruction) string { return in.String() }
+	follow = func(v ssa.Value, d int) {
+		if v == nil || seen[v] || d > 12 {
+			return
+		}
+		seen[v] = true
+		refs := v.Referrers()
+		if refs == nil {
+			return
+		}
+		for _, r := range *refs {
+			switch x := r.(type) {
+			case *ssa.DebugRef:
+			case *ssa.Extract, *ssa.Convert, *ssa.ChangeType, *ssa.MakeInterface, *ssa.ChangeInterface, *ssa.Phi, *ssa.Slice, *ssa.FieldAddr, *ssa.Field, *ssa.IndexAddr, *ssa.TypeAssert:
+				follow(x.(ssa.Value), d+1)
+			case *ssa.UnOp:
+				follow(x, d+1)
+			case *ssa.BinOp:
+				switch x.Op {
+				case token.EQL, token.NEQ, token.LSS, token.LEQ, token.GTR, token.GEQ:
+					bad = append(bad, "an operand of the comparison "+core.Describe(x)+" (control dependence)")
+				default:
+					follow(x, d+1)
+				}
+			case *ssa.Store:
+				if x.Val != v {
+					continue // stored *into* v: fine
+				}
+				// statistics field?
+				if b, _, ok := core.FieldOf(x.Addr); ok && strings.HasSuffix(core.TypeName(b.Type()), "Stats") {
+					continue
+				}
+				root := core.CellRoot(x.Addr)
+				if a, ok := root.(*ssa.Alloc); ok {
+					if _, isFA := x.Addr.(*ssa.FieldAddr); !isFA || a.Comment == "complit" {
+						// local variable / varargs slot: follow its uses
+						if ia, ok := x.Addr.(*ssa.IndexAddr); ok {
+							follow(ia.X, d+1)
+						} else {
+							for _, u := range core.CellUses(a) {
+								if ld, ok := u.(*ssa.UnOp); ok {
+									follow(ld, d+1)
+								}
+							}
+						}
+						continue
+					}
+				}
+				if ia, ok := x.Addr.(*ssa.IndexAddr); ok {
+					follow(ia.X, d+1)
+					continue
+				}
+				bad = append(bad, "a value stored to "+core.Describe(x.Addr))
+			case ssa.CallInstruction:
+				n := core.CalleeName(x)
+				switch {
+				case isLoggingCall(n):
+				case n == "time.Since", n == "(time.Time).Sub", strings.HasPrefix(n, "(time.Duration)."), strings.HasPrefix(n, "(time.Time)."):
+					if val, ok := x.(ssa.Value); ok {
+						follow(val, d+1)
+					}
+				case strings.Contains(n, "united.Format"), strings.HasPrefix(n, "fmt.Sprint"):
+					if val, ok := x.(ssa.Value); ok {
+						follow(val, d+1)
+					}
+				case n == "runtime.ReadMemStats":
+				default:
+					bad = append(bad, "an argument of "+n)
+				}
+			case *ssa.Return:
+				bad = append(bad, "a return value")
+			case *ssa.If:
+				bad = append(bad, "a branch condition")
+			case *ssa.MapUpdate, *ssa.Send, *ssa.MakeClosure, *ssa.MakeSlice, *ssa.Index, *ssa.Lookup:
+				bad = append(bad, useOf(r))
+			}
+		}
+	}
+	follow(src, 0)
+	sort.Strings(bad)
+	return dedup(bad)
+}
+
+// ---- C19 ------------------------------------------------------------------------------------------
+
+func runC19(c *core.Ctx) {
+	c.Rule("R19.1", "fork-site conflicts in ExtractZip")
+	c.Rule("R19.2", "resume marker has one ordered writer")
+	c.Rule("R19.3", "every worker reports exactly once; the parent collects")
+	ez := c.P.Fn("archiver", "ExtractZip")
+	if ez == nil {
+		c.Missing("R19.1", "archiver.ExtractZip", "not found")
+		return
+	}
+	s := reportForkSite(c, "R19.1", ez, 1)
+	multi := false
+	var worker *forkUnit
+	for _, u := range s.units {
+		if u.multi {
+			multi, worker = true, u
+		}
+	}
+	c.Check(multi, "R19.1", core.FnName(ez), "workers are started in a loop (multi-instance)", ez.Pos(), "go statement inside the worker loop", "no multi-instance worker unit found")
+	if worker == nil {
+		return
+	}
+	// R19.2: accesses to the resume file pseudo-variable
+	nFile := 0
+	var locks map[string]bool
+	first := true
+	for _, a := range worker.accesses {
+		if !strings.HasPrefix(a.loc.path, "<file>") || !a.write {
+			continue
+		}
+		nFile++
+		if first {
+			locks, first = a.locks, false
+		} else {
+			for k := range locks {
+				if !a.locks[k] {
+					delete(locks, k)
+				}
+			}
+		}
+	}
+	c.Check(nFile > 0 && len(locks) > 0, "R19.2", core.FnName(ez), "resume file written by the workers under one common lock", ez.Pos(),
+		fmt.Sprintf("%d write sites, common lockset %v", nFile, keysOf(locks)),
+		fmt.Sprintf("the resume file is written from the worker goroutines at %d sites with no lock common to all of them: two workers can write it at once and the last writer is not the furthest-advanced one", nFile))
+	// R19.3
+	var errsChan ssa.Value
+	core.Instrs(worker.fn, func(in ssa.Instruction) {
+		if sd, ok := in.(*ssa.Send); ok && isErrorType(sd.Chan.Type().Underlying().(*types.Chan).Elem()) {
+			errsChan = sd.Chan
+		}
+	})
+	if errsChan == nil {
+		c.Bad("R19.3", core.FnName(worker.fn), "result send", worker.fn.Pos(), "workers no longer report a result")
+		return
+	}
+	ob, _ := pathEventBounds(worker.fn, func(in ssa.Instruction) int {
+		if sd, ok := in.(*ssa.Send); ok && sameChan(sd.Chan, errsChan) {
+			return 1
+		}
+		return 0
+	}, 0)
+	c.Check(ob.min == 1 && ob.max == 1, "R19.3", core.FnName(worker.fn), "exactly one result per worker on every path", worker.fn.Pos(), fmtBounds(ob),
+		"a worker does not send exactly one result on every path ("+fmtBounds(ob)+"): ExtractZip blocks collecting results or a worker blocks sending")
+	// the channel is buffered for all workers and the parent receives in a loop bounded by the same count
+	okBuf := false
+	for _, o := range core.Origins(errsChan) {
+		if mc, ok := o.(*ssa.MakeChan); ok {
+			if _, isC := core.ConstInt(mc.Size); !isC {
+				okBuf = true // make(chan error, numWorkers)
+			}
+		}
+	}
+	c.Check(okBuf, "R19.3", core.FnName(ez), "result channel buffered for all workers", ez.Pos(), "make(chan error, numWorkers)", "the result channel is not buffered by the worker count: after an early error return the remaining workers block forever on their send")
+	recvInLoop := false
+	core.Instrs(ez, func(in ssa.Instruction) {
+		if u, ok := in.(*ssa.UnOp); ok && u.Op == token.ARROW && sameChan(u.X, errsChan) && core.FindPath(ez, in, isInstr(in), nil) != nil {
+			recvInLoop = true
+		}
+	})
+	c.Check(recvInLoop, "R19.3", core.FnName(ez), "the parent collects the workers' results in a loop", ez.Pos(), "<-errs inside the join loop", "the parent does not collect every worker's result before returning success")
+}
+
+func keysOf(m map[string]bool) []string {
+	var out []string
+	for k := range m {
+		out = append(out, k)
+	}
+	sort.Strings(out)
+	return out
+}
+
+func fixturesC15(fc *core.Ctx) map[string]bool {
+	rep := map[string]bool{}
+	for _, fn := range fc.P.SrcFuncs() {
+		if fn.Parent() != nil || !strings.HasSuffix(core.PkgPathOf(fn), "/forkfx") {
+			continue
+		}
+		s, _ := analyseForkSite(fc.P, fn, 4)
+		if len(s.units) > 0 && len(findConflicts(s)) > 0 {
+			rep[fn.Name()] = true
+		}
+		core.Instrs(fn, func(in ssa.Instruction) {
+			if rg, ok := in.(*ssa.Range); ok {
+				if _, isMap := rg.X.Type().Underlying().(*types.Map); isMap && len(mapRangeProblems(fn, rg)) > 0 {
+					rep[fn.Name()] = true
+				}
+			}
+			if cl, ok := in.(*ssa.Call); ok && isAmbientCall(cl) && len(ambientEscapes(cl)) > 0 {
+				rep[fn.Name()] = true
+			}
+		})
+	}
+	return rep
 }
